@@ -52,22 +52,49 @@ def sh(cmd, timeout, cwd=None, env=None):
 # stage A: proof obligations
 # ----------------------------------------------------------------------------
 
-def coq_build(timeout=3000):
-    """(incremental) full .vo build of the development, serialised by a lock"""
+def cone(pids):
+    """files (relative to coq/) in the dependency cone of Properties/<pid>.v, from the Require lines"""
+    todo = ['Properties/%s.v' % p for p in pids]
+    seen = []
+    while todo:
+        f = todo.pop()
+        if f in seen or not os.path.exists(os.path.join(COQ, f)):
+            continue
+        seen.append(f)
+        src = open(os.path.join(COQ, f), encoding='utf-8', errors='replace').read()
+        src = re.sub(r'\(\*.*?\*\)', ' ', src, flags=re.S)
+        for m in re.finditer(r'From\s+PT\s+Require\s+(?:Import|Export)\s+([^.]*(?:\.[A-Za-z_][^.\s]*)*)\s*\.', src):
+            for mod in m.group(1).split():
+                todo.append(mod.replace('PT.', '').replace('.', '/') + '.v')
+        for m in re.finditer(r'Require\s+(?:Import|Export)\s+((?:PT\.[A-Za-z_.0-9]+\s*)+)\.', src):
+            for mod in m.group(1).split():
+                todo.append(mod.replace('PT.', '', 1).replace('.', '/') + '.v')
+    return sorted(seen)
+
+
+def coq_build(pids=None, timeout=3000):
+    """full .vo build (coq_makefile, no -vos) of the dependency cone of the given properties' theorem files
+    (all properties with a Properties/*.v file if none given), serialised by a lock"""
     os.makedirs(COQ, exist_ok=True)
+    if pids is None:
+        pids = sorted(f[:-2] for f in os.listdir(os.path.join(COQ, 'Properties')) if f.endswith('.v'))
+    tag = pids[0] if len(pids) == 1 else 'all'
+    files = cone(pids)
     lock = open(os.path.join(COQ, '.build.lock'), 'w')
     fcntl.flock(lock, fcntl.LOCK_EX)
     try:
-        rc, out = sh('./mkproject.sh && timeout %d make -j%d 2>&1' % (timeout, NPROC), timeout + 60, cwd=COQ)
+        with open(os.path.join(COQ, '_CoqProject.%s' % tag), 'w') as f:
+            f.write('-Q . PT\n' + '\n'.join(files) + '\n')
+        rc, out = sh('coq_makefile -f _CoqProject.%s -o Makefile.%s >/dev/null && timeout %d make -f Makefile.%s -j%d 2>&1'
+                     % (tag, tag, timeout, tag, NPROC), timeout + 60, cwd=COQ)
         ok = (rc == 0)
-        out = out[-4000:]
-        return ok, out
+        return ok, out[-4000:], files
     finally:
         fcntl.flock(lock, fcntl.LOCK_UN)
         lock.close()
 
 
-def scan_sources():
+def scan_sources(files=None):
     """textual scan of the development for forbidden constructs; returns list of hits.
     Section-local Variable/Hypothesis are allowed (they are discharged at End); the scan
     checks that every such line lies inside a Section."""
@@ -77,6 +104,8 @@ def scan_sources():
             if not f.endswith('.v'):
                 continue
             path = os.path.join(root, f)
+            if files is not None and os.path.relpath(path, COQ) not in files:
+                continue
             depth = 0
             in_comment = 0
             for ln, line in enumerate(open(path, encoding='utf-8', errors='replace'), 1):
@@ -108,12 +137,13 @@ def proof_stage(pid, thorough=False):
     t0 = time.time()
     res = {'ok': False, 'obligations': 0, 'discharged': 0, 'assumptions': [], 'cmds': [], 'log': '',
            'theorems': [], 'failed': None}
-    ok, out = coq_build()
-    res['cmds'].append('cd coq && ./mkproject.sh && make -j%d   (full .vo build, coq_makefile)' % NPROC)
+    ok, out, files = coq_build([pid])
+    res['files'] = files
+    res['cmds'].append('cd coq && coq_makefile -f _CoqProject.%s -o Makefile.%s && make -f Makefile.%s -j%d   (full .vo build of the %d files in the dependency cone of Properties/%s.v)' % (pid, pid, pid, NPROC, len(files), pid))
     if not ok:
         res['log'] = out[-4000:]
         res['failed'] = 'make (see log)'
-    hits = scan_sources()
+    hits = scan_sources(files)
     if hits:
         res['failed'] = 'forbidden construct: ' + '; '.join(hits[:5])
         ok = False
@@ -509,7 +539,7 @@ def replay(plugin, pid, path, work):
         return 1
     t = plugin.coq(c, r)
     if t is not None:
-        coq_build()
+        coq_build([pid])
         res, logs = run_coq_terms(work, plugin.COQ_IMPORTS, getattr(plugin, 'COQ_PREAMBLE', ''), [t], tag='replay')
         log('model agrees with implementation: %s' % res[0])
         if res[0] is not True:
